@@ -16,12 +16,19 @@ func TestVerifC15(t *testing.T) {
 	seed := vhSeed()
 	bases, perBase := 6, 14
 	if vhThorough() {
-		bases, perBase = 60, 1 << 30
+		bases, perBase = 10, 50
 	}
 	tune := func(g *vhsrvGen, b *vhsrvBackend) {
 		b.errProb = 0.01 // few spontaneous errors so that histories get deep
 		g.hostile = 0.05
 		g.junkFid = 0.05
+	}
+	// fixed histories first: a panic inside the Walk+GetAttr fallback, inside rename notifications, in Close,
+	// each followed by requests that need the locks the failed request held
+	for i, c := range vh15Corpus() {
+		h := vhsrvRunFixedOpt(c, seed+int64(i), true)
+		h.ID = fmt.Sprintf("corpus-%d", i)
+		out.Emit(h)
 	}
 	rng := vhRand()
 	for bi := 0; bi < bases; bi++ {
@@ -69,5 +76,29 @@ func TestVerifC15(t *testing.T) {
 				out.Emit(h)
 			}
 		}
+	}
+}
+
+func vh15Corpus() [][]vhsrvReq {
+	nf := uint64(noFID)
+	v := vhsrvReq{T: "Tversion", N: []uint64{8192}, S: vhsrvH("9P2000.L")}
+	at := vhsrvReq{T: "Tattach", N: []uint64{0, nf, 0}, S: vhsrvH("u", "")}
+	w := func(f, n uint64, names ...string) vhsrvReq {
+		return vhsrvReq{T: "Twalk", N: []uint64{f, n}, S: vhsrvHexs(names)}
+	}
+	pan := &vhsrvAns{Panic: true}
+	return [][]vhsrvReq{
+		// GetAttr of the walk fallback panics (calls: WalkGetAttr=ENOSYS, Walk, GetAttr); then the same child is walked and written
+		{v, at, {T: "Twalk", N: []uint64{0, 1}, S: vhsrvH("f1"), FaultAns: pan, FaultCall: 2}, w(0, 1, "f1"), {T: "Tsetattr", N: []uint64{1, 1}},
+			{T: "Tunlinkat", N: []uint64{0, 0}, S: vhsrvH("f1")}, {T: "Tclunk", N: []uint64{1}}},
+		// same inside a multi-component walk, second component
+		{v, at, {T: "Twalk", N: []uint64{0, 1}, S: vhsrvH("d1", "f1"), FaultAns: pan, FaultCall: 5}, w(0, 1, "d1", "f1"), {T: "Tsetattr", N: []uint64{1, 1}},
+			w(0, 2, "d1"), {T: "Tunlinkat", N: []uint64{2, 0}, S: vhsrvH("f1")}, {T: "Tclunk", N: []uint64{1}}, {T: "Tclunk", N: []uint64{2}}},
+		// Close panics while a replaced binding is released; the fid table stays usable
+		{v, at, w(0, 1, "f1"), {T: "Twalk", N: []uint64{0, 1}, S: vhsrvH("f2"), FaultAns: pan, FaultCall: 3}, {T: "Tgetattr", N: []uint64{1, 1}}, {T: "Tclunk", N: []uint64{1}}, {T: "Tclunk", N: []uint64{0}}},
+		// UnlinkAt / Create / Open panic; then the same directory is used again (its write lock must be free)
+		{v, at, w(0, 1, "d1"), {T: "Tunlinkat", N: []uint64{1, 0}, S: vhsrvH("f1"), FaultAns: pan}, {T: "Tmkdir", N: []uint64{1, 0o755, 0}, S: vhsrvH("d2")},
+			{T: "Tlcreate", N: []uint64{1, 2, 0o644, 0}, S: vhsrvH("f3"), FaultAns: pan}, w(0, 2, "d1"), {T: "Tmkdir", N: []uint64{2, 0o755, 0}, S: vhsrvH("d3")},
+			{T: "Trenameat", N: []uint64{2, 0}, S: vhsrvH("f1", "f2"), FaultAns: pan}, {T: "Trenameat", N: []uint64{2, 0}, S: vhsrvH("f1", "f2")}, {T: "Tsetattr", N: []uint64{2, 1}}},
 	}
 }
